@@ -285,12 +285,17 @@ def search_decode(prop, rng, corr_failures, run_cases, limit=10):
 
     seen = set()
     cands = []
-    for f in corr_failures[:limit]:
+    # a spread of the differing inputs: the first ones and the longest ones
+    by_len = sorted(corr_failures, key=lambda f: -len(f.case.meta.get("data") or ""))
+    chosen = []
+    for f in list(corr_failures[: limit // 2]) + by_len[: limit - limit // 2]:
+        h = f.case.meta.get("data")
+        if isinstance(h, str) and h not in seen:
+            seen.add(h)
+            chosen.append(f)
+    for f in chosen:
         meta = f.case.meta
-        h = meta.get("data")
-        if not isinstance(h, str) or h in seen:
-            continue
-        seen.add(h)
+        h = meta["data"]
         d = b"" if h == "-" else bytes.fromhex(h)
         variants = [d[:k] for k in range(0, min(len(d), 96) + 1)]
         for i in range(min(len(d), 20)):
@@ -300,6 +305,19 @@ def search_decode(prop, rng, corr_failures, run_cases, limit=10):
                 variants.append(bytes(e))
         for _ in range(6):
             variants.append(d + bytes(rng.randrange(256) for _ in range(rng.randrange(1, 24))))
+        # truncations whose IP length field is made consistent with the new end (so that the strict doors
+        # do not reject the cut for its length field): IPv4 total length / IPv6 payload length, for the
+        # usual positions of the IP header
+        for L in range(1, min(len(d), 130) + 1):
+            for ip in (0, 14, 16, 18, 22, 26):
+                if ip + 4 <= L:
+                    e = bytearray(d[:L])
+                    e[ip + 2 : ip + 4] = (L - ip).to_bytes(2, "big")
+                    variants.append(bytes(e))
+                if ip + 6 <= L and L - ip >= 40:
+                    e = bytearray(d[:L])
+                    e[ip + 4 : ip + 6] = (L - ip - 40).to_bytes(2, "big")
+                    variants.append(bytes(e))
         for v in variants:
             m = dict(meta)
             m["data"] = v.hex() if v else "-"
@@ -314,4 +332,22 @@ def search_decode(prop, rng, corr_failures, run_cases, limit=10):
         fs = prop.oracle(c)
         if fs:
             return Failure("oracle", fs[0][0], c, fs[0][1])
+    if getattr(prop, "RELEASE_SEARCH", False):
+        # the debug build stops at a panic or an overflow check; the optimised build goes on, and then the
+        # guard pages and the range check of every returned slice show whether memory outside the input is used
+        from . import core
+        import copy
+
+        for profile, what in (("relcheck", "optimised harness (opt-level 2)"), ("nocheck", "unoptimised harness (opt-level 0)")):
+            exe = core.build_harness_profile(profile)
+            if exe is None:
+                continue
+            rel = [copy.deepcopy(c) for c in cands]
+            core.run_cases_with(exe, rel)
+            for c in rel:
+                fs = prop.oracle(c)
+                if fs:
+                    d = dict(fs[0][1])
+                    d["build"] = "%s, cargo build --profile %s: no debug assertions, no overflow checks" % (what, profile)
+                    return Failure("oracle", fs[0][0], c, d)
     return None
